@@ -94,7 +94,10 @@ CheckReport ==
          \cup (IF S.out.crashed THEN {}
                ELSE (IF S.cli.rc = 0 THEN {} ELSE {"C16.Cli exit"})
                     \cup (IF S.cli.files = <<ReportName(S.file)>> THEN {} ELSE {"C16.Cli FileName"})
-                    \cup {"C16.Cli line differs: " \o S.cli.diff[i] : i \in DOMAIN S.cli.diff})
+                    \cup {"C16.Cli line differs: " \o S.cli.diff[i] : i \in DOMAIN S.cli.diff}
+                    \* the same command with a log level: still the same saved report (C16); the other
+                    \* ways of typing it are growth beyond the listed properties (prefix X.)
+                    \cup UNION {CliVariantClauses(S.cli.variants[i], ReportName(S.file)) : i \in DOMAIN S.cli.variants})
     /\ stage' = "verdict" /\ UNCHANGED <<tid, pos, phase, hadSolution, k>>
 
 Verdict ==
